@@ -155,10 +155,66 @@ def rule_write_specials(col, facts):
     col.check("MPT-special-none", "None-diverges", diverges, "write_special(None) does not diverge with a panic", ws.loc())
 
 
+def _norm(e):
+    """Drop call destinations and reference wrappers so that sibling expressions can be compared."""
+    if not isinstance(e, tuple) or not e:
+        return e
+    if e[0] in ("ref", "cast"):
+        return _norm(e[1])
+    if e[0] == "call":
+        return ("call", e[1], tuple(_norm(x) for x in e[2]))
+    if e[0] == "kc":
+        return ("kc", e[1])
+    return tuple(_norm(x) if isinstance(x, tuple) else x for x in e)
+
+
+def rule_special_classification(col, facts):
+    """SIB-class: the writer decides NaN vs infinity with Float::is_nan() inside `is_special()`; the two
+    predicates must partition the specials: is_special = (bits & EXPONENT_MASK == EXPONENT_MASK),
+    is_nan = is_special && (bits & MANTISSA_MASK) != 0, is_inf = is_special && (bits & MANTISSA_MASK) == 0 -
+    the same masked word compared with the same zero by opposite operators.  A NaN test on fewer mantissa
+    bits (quiet bit only) lets signalling NaNs fall into the infinity branch: "inf" / "-inf" is written."""
+    from rules.core import enum_paths, resolve_env
+    R = "SIB-class"
+    def model(name):
+        f = facts.fn("lexical_util::num::Float::" + name)
+        rets = {i for i, b in enumerate(f.blocks) if f.live(i) and b["t"]["k"] == "return"}
+        out = []
+        for t, atoms, env in enum_paths(f, 0, rets, want_env=True):
+            r = env.get(0)
+            val = ("k", r[1]) if r and r[0] == "const" else _norm(resolve_env(r[1], env)) if r else None
+            out.append(([(_norm(e), p) for e, p in atoms], val))
+        return f, out
+    fs, ms = model("is_special")
+    ok = len(ms) == 1 and not ms[0][0] and ms[0][1][0] == "call" and ms[0][1][1].endswith("PartialEq::eq")
+    if ok:
+        x, y = ms[0][1][2]
+        ok = y == ("kc", "lexical_util::num::Float::EXPONENT_MASK") and x[0] == "call" and x[1].endswith("BitAnd::bitand") and ("kc", "lexical_util::num::Float::EXPONENT_MASK") in x[2] and any(isinstance(z, tuple) and z[0] == "call" and z[1].endswith("Float::to_bits") for z in x[2])
+    col.check(R, "is_special", ok, "is_special() is no longer `to_bits() & EXPONENT_MASK == EXPONENT_MASK` (%s)" % (ms,), fs.loc())
+    got = {}
+    for name, op in (("is_nan", "ne"), ("is_inf", "eq")):
+        f, m = model(name)
+        shape = None
+        if len(m) == 2:
+            neg = [v for a, v in m if len(a) == 1 and a[0][0][0] == "call" and a[0][0][1].endswith("Float::is_special") and a[0][1] is False]
+            pos = [v for a, v in m if len(a) == 1 and a[0][0][0] == "call" and a[0][0][1].endswith("Float::is_special") and a[0][1] is True]
+            if neg == [("k", False)] and len(pos) == 1 and pos[0][0] == "call" and pos[0][1].endswith("PartialEq::" + op):
+                shape = pos[0][2]
+        # also accept `&` instead of `&&`
+        col.check(R, name + ":shape", shape is not None, "%s() is no longer `is_special() && (bits & MANTISSA_MASK) %s 0` (paths: %s)" % (name, "!=" if op == "ne" else "==", [(len(a), show(v) if isinstance(v, tuple) else v) for a, v in m]), f.loc())
+        got[name] = shape
+    if got.get("is_nan") and got.get("is_inf"):
+        col.check(R, "is_nan/is_inf:same-word", got["is_nan"] == got["is_inf"], "is_nan and is_inf compare different words: %s vs %s" % (got["is_nan"], got["is_inf"]), "lexical-util/src/num.rs")
+        x, z = got["is_nan"]
+        okw = x[0] == "call" and x[1].endswith("BitAnd::bitand") and ("kc", "lexical_util::num::Float::MANTISSA_MASK") in x[2] and z == ("kc", "lexical_util::num::Integer::ZERO")
+        col.check(R, "is_nan:all-mantissa-bits", okw, "the NaN test does not look at all of `bits & MANTISSA_MASK` against ZERO (%s, %s)" % (x, z), "lexical-util/src/num.rs")
+
+
 def run(col, configs, tier):
     for name, facts in configs.items():
         col.set_config(name)
         guarded(col, rule_parse_specials, facts)
         guarded(col, rule_write_specials, facts)
+        guarded(col, rule_special_classification, facts)
         for crate in ("lexical_write_float", "lexical_parse_float"):
             guarded(col, O.rule_options_builder, facts, crate)
